@@ -54,13 +54,13 @@ package dmarc
 //@ func (*Verifier).Apply
 //@   prop C07 C06
 //@   modifies chans(), gDmarcPolicy, gDmarcValue
-//@   trusted-ensures gDmarcPolicy == result1 && gDmarcValue == result0.Authres.Value
 //@   ensures data.recordErr != nil && tempLookupErr(data.recordErr) ==> result1 == godmarc.PolicyReject && result0.Authres.Value == authres.ResultTempError
 //@   ensures data.recordErr != nil && !tempLookupErr(data.recordErr) ==> result1 == godmarc.PolicyNone && result0.Authres.Value == authres.ResultPermError
 //@   ensures data.recordErr == nil && data.record == nil ==> result1 == godmarc.PolicyNone && result0.Authres.Value == authres.ResultNone
 //@   ensures data.recordErr == nil && data.record != nil ==> result0.Authres.Value == verdictSpec(authRes, data.fromDomain, data.record)
 //@   ensures data.recordErr == nil && data.record != nil && (result0.Authres.Value == authres.ResultPass || result0.Authres.Value == authres.ResultNone) ==> result1 == godmarc.PolicyNone
 //@   ensures data.recordErr == nil && data.record != nil && result0.Authres.Value != authres.ResultPass && result0.Authres.Value != authres.ResultNone && (data.record.Percent == nil || *data.record.Percent == 100) ==> result1 == ((!eqFold(data.policyDomain, data.fromDomain) && data.record.SubdomainPolicy != "") ? data.record.SubdomainPolicy : data.record.Policy)
+//@   trusted-ensures gDmarcPolicy == result1 && gDmarcValue == result0.Authres.Value
 
 // ---- C07: policy discovery ----
 // The resolver is a function of the query name (assumption A-iface).
